@@ -370,7 +370,7 @@ func (p *parser) scanCode(from, to int) []*Annotation {
 				continue
 			}
 			p.del(p.at(i+2).end, p.prevEnd())
-			anns = append(anns, &Annotation{Kind: "catch", Name: p.at(i+2).text, Type: ty, Line: p.line(t)})
+			anns = append(anns, &Annotation{Kind: "catch", Name: p.at(i + 2).text, Type: ty, Line: p.line(t)})
 			i = p.i - 1
 		case (t.isIdent("as") || t.isIdent("satisfies")) && hasPrev && !t.nl && isExprEnd(prev) && !afterDot:
 			p.i = i + 1
